@@ -116,6 +116,7 @@ fn candidates(sc: &Scenario) -> Vec<Scenario> {
     push(&|c| c.render = false);
     push(&|c| c.world.filter_reversed = false);
     push(&|c| c.cancel_during_render = false);
+    push(&|c| c.rewrap_before_render = false);
     for bit in [1u8, 2, 4, 8] {
         push(&|c| c.yield_mask &= !bit);
     }
